@@ -176,6 +176,10 @@ func fixErr(err error, nominal string) error {
 	return err
 }
 
+func init() {
+	sched.Exists = func(nominal string) bool { return exists(Real(nominal)) }
+}
+
 func exists(real string) bool {
 	_, err := os.Lstat(real)
 	return err == nil
